@@ -160,6 +160,7 @@ int kalign_read_input(char* infile, struct msa** msa, int quiet)
         if(*msa != NULL){
                 RUN(merge_msa(msa, m));
                 kalign_free_msa(m);
+                m = NULL;
         }else{
                 *msa = m;
         }
@@ -168,6 +169,9 @@ int kalign_read_input(char* infile, struct msa** msa, int quiet)
         return OK;
 ERROR:
         if(m){
+                if(*msa == m){
+                        *msa = NULL;
+                }
                 kalign_free_msa(m);
         }
         return FAIL;
